@@ -99,13 +99,14 @@ composition theorem `walker_colour_eq_spec` the walker's colour is the Spec's `c
 Hypotheses: `hrv` the repeat mode is one of the enum's values (C type); `hwf` C13's `WellFormed` (stop positions
 sorted, within [0, 1], at least one stop); for NORMAL/REFLECT `PosOk pos` (|t| < 32764, C13's range).
 PARTIAL only in that it speaks of the colour at a position, not of rows: the row-level statements (every pixel written,
-alpha 1 / 0xff, no `WellFormed` / `PosOk` needed) are `linear_/conical_/radial_gradient_opaque_sound` below. -/
+alpha 1 / 0xff, no `WellFormed` / `PosOk` needed) are `linear_gradient_opaque_sound` / `conical_gradient_opaque_sound` below
+(a radial gradient is never flagged: the hypothesis `h` is unsatisfiable for it). -/
 theorem gradient_opaque_sound_partial (i : Img) (hk : i.cr.kind ≠ .solid ∧ i.cr.kind ≠ .bits) (h : i.flags.testBit 13 = true)
     (hrv : i.props.repeat_ = 1 ∨ i.props.repeat_ = 2 ∨ i.props.repeat_ = 3)
     (hwf : WellFormed (gradStops i.cr)) (pos : Int)
     (hpos : gradRepeat i.props.repeat_ = .normal ∨ gradRepeat i.props.repeat_ = .reflect → PosOk pos) :
     (walkerEval (walkerReset (walkerInit (gradRepeat i.props.repeat_) (gradStops i.cr)) pos) pos).a = 1 := by
-  obtain ⟨hall, _, _, _⟩ := gradient_flag_sound_partial i hk h
+  obtain ⟨hall, _, _⟩ := gradient_flag_sound_partial i hk h
   have hspec := Pixman.Props.C13.walker_colour_eq_spec (gradRepeat i.props.repeat_) (gradStops i.cr) hwf pos hpos
   have ha : (toP (walkerEval (walkerReset (walkerInit (gradRepeat i.props.repeat_) (gradStops i.cr)) pos) pos)).a =
       (walkerEval (walkerReset (walkerInit (gradRepeat i.props.repeat_) (gradStops i.cr)) pos) pos).a := rfl
@@ -165,13 +166,12 @@ theorem conical_paints_every_pixel (c : Conical) (turns : List Rat) : ∀ px ∈
 
 /-! ## whole rows (C13's coverage theorems): what a flagged gradient WRITES -/
 
-/-- a flagged gradient has opaque stops in the gradient model's sense, at least one of them, and a repeat mode -/
+/-- a flagged gradient has opaque stops in the gradient model's sense, a repeat mode, and is not radial (6d3452b) -/
 theorem flagged_stops (i : Img) (hk : i.cr.kind ≠ .solid ∧ i.cr.kind ≠ .bits) (h : i.flags.testBit 13 = true)
     (hrv : i.props.repeat_ = 1 ∨ i.props.repeat_ = 2 ∨ i.props.repeat_ = 3) :
-    AllOpaque (gradStops i.cr) ∧ gradRepeat i.props.repeat_ ≠ .none ∧ ¬ (i.cr.kind = .radial ∧ i.cr.radialA ≥ 0) ∧
-    (i.cr.kind = .radial → affineFlag i.props = true) := by
-  obtain ⟨hall, _, hrad, haff⟩ := gradient_flag_sound_partial i hk h
-  refine ⟨?_, by rcases hrv with e | e | e <;> rw [e] <;> decide, hrad, haff⟩
+    AllOpaque (gradStops i.cr) ∧ gradRepeat i.props.repeat_ ≠ .none ∧ i.cr.kind ≠ .radial := by
+  obtain ⟨hall, _, hrad⟩ := gradient_flag_sound_partial i hk h
+  refine ⟨?_, by rcases hrv with e | e | e <;> rw [e] <;> decide, hrad⟩
   intro k hk'
   unfold gradStops at hk' ⊢
   simp only [List.size_toArray, List.length_map] at hk'
@@ -187,7 +187,7 @@ theorem linear_gradient_opaque_sound (i : Img) (hk : i.cr.kind = .linear) (h : i
     (hrow : linearScanline l tr x y w = some ps) :
     (∀ c ∈ (rowWide (walkerInit (gradRepeat i.props.repeat_) (gradStops i.cr)) ps).2, c.a = 1) ∧
     (∀ c ∈ (rowNarrow (walkerInit (gradRepeat i.props.repeat_) (gradStops i.cr)) ps).2, c / 16777216 = 255) := by
-  obtain ⟨ho, hrep, _, _⟩ := flagged_stops i ⟨by rw [hk]; decide, by rw [hk]; decide⟩ h hrv
+  obtain ⟨ho, hrep, _⟩ := flagged_stops i ⟨by rw [hk]; decide, by rw [hk]; decide⟩ h hrv
   exact Pixman.Props.C13.opaque_stops_paint_alpha_one _ _ hrep hne ho ps (linear_paints_every_pixel l tr x y w ps hrow)
 
 /-- (O3) CONICAL gradient flagged opaque: as for linear gradients, every pixel, any transform -/
@@ -196,91 +196,17 @@ theorem conical_gradient_opaque_sound (i : Img) (hk : i.cr.kind = .conical) (h :
     (c : Conical) (turns : List Rat) :
     (∀ q ∈ (rowWide (walkerInit (gradRepeat i.props.repeat_) (gradStops i.cr)) (conicalScanline c turns)).2, q.a = 1) ∧
     (∀ q ∈ (rowNarrow (walkerInit (gradRepeat i.props.repeat_) (gradStops i.cr)) (conicalScanline c turns)).2, q / 16777216 = 255) := by
-  obtain ⟨ho, hrep, _, _⟩ := flagged_stops i ⟨by rw [hk]; decide, by rw [hk]; decide⟩ h hrv
+  obtain ⟨ho, hrep, _⟩ := flagged_stops i ⟨by rw [hk]; decide, by rw [hk]; decide⟩ h hrv
   exact Pixman.Props.C13.opaque_stops_paint_alpha_one _ _ hrep hne ho _ (conical_paints_every_pixel c turns)
 
-theorem setup_none (x y : Int) (v unit : Pixman.Matrix.Vec) (hs : setupVec none x y = some (v, unit)) :
-    unit.z = 0 ∧ v.z = Pixman.Matrix.fixed1 := by
-  have e : setupVec none x y = some (centre x y, ⟨Pixman.Matrix.fixed1, 0, 0⟩) := rfl
-  rw [e] at hs
-  simp only [Option.some.injEq, Prod.mk.injEq] at hs
-  obtain ⟨h1, h2⟩ := hs
-  rw [← h1, ← h2]
-  exact ⟨rfl, rfl⟩
-
-theorem setup_affine (t : Pixman.Matrix.Transform) (h20 : t.m20 = 0) (h21 : t.m21 = 0) (h22 : t.m22 = 65536)
-    (x y : Int) (v unit : Pixman.Matrix.Vec) (hs : setupVec (some t) x y = some (v, unit)) :
-    unit.z = 0 ∧ v.z = Pixman.Matrix.fixed1 := by
-  have hc : (centre x y).isI32 :=
-    ⟨Pixman.Props.C04.wrapS32_isI32 _, Pixman.Props.C04.wrapS32_isI32 _, by show Pixman.Matrix.isI32 65536; unfold Pixman.Matrix.isI32; omega⟩
-  obtain ⟨b, out, e, _, hout⟩ := Pixman.Props.C11.transformPoint3d_spec t (centre x y) hc
-  have e2 : setupVec (some t) x y = (match Pixman.Matrix.transformPoint3d t (centre x y) with
-      | some (true, v) => some (v, ⟨t.m00, t.m10, t.m20⟩) | _ => none) := rfl
-  rw [e2, e] at hs
-  cases b with
-  | false => simp at hs
-  | true =>
-    simp only [Option.some.injEq, Prod.mk.injEq] at hs
-    obtain ⟨hv, hu⟩ := hs
-    rw [← hu, ← hv, hout rfl]
-    refine ⟨h20, ?_⟩
-    show Pixman.Spec.Fixed.roundHalfUp (Pixman.Spec.Fixed.dot t.m20 t.m21 t.m22 (centre x y).x (centre x y).y (centre x y).z) 65536 = 65536
-    have hz : (centre x y).z = 65536 := rfl
-    rw [h20, h21, h22, hz]
-    unfold Pixman.Spec.Fixed.roundHalfUp Pixman.Spec.Fixed.dot
-    omega
-
-/-- an affine transform (or none) sets a row up with `unit.z = 0` and `v.z = 1.0`: the branch of `radial_get_scanline`
-that walks by forward differences and clears nothing -/
-theorem affine_setup (p : ImageState.Props) (haff : affineFlag p = true) (x y : Int) (v unit : Pixman.Matrix.Vec)
-    (hs : setupVec (p.transform.map toMatrix) x y = some (v, unit)) : unit.z = 0 ∧ v.z = Pixman.Matrix.fixed1 := by
-  unfold affineFlag at haff
-  cases ht : p.transform with
-  | none => rw [ht] at hs; exact setup_none x y v unit hs
-  | some t =>
-    rw [ht] at hs haff
-    simp only [Bool.and_eq_true, beq_iff_eq] at haff
-    exact setup_affine (toMatrix t) haff.1.1 haff.1.2 haff.2 x y v unit hs
-
-/-- (O3) RADIAL gradient flagged opaque: every row that is set up exists, has `w` pixels, and every one is written
-with alpha 1 / alpha byte 0xff.  That the row is an AFFINE one (`unit.z = 0`, `v.z = 1.0`) is no longer a hypothesis:
-since a7be4c7 a radial gradient is flagged only with FAST_PATH_AFFINE_TRANSFORM (`flagged_stops`, `affine_setup`);
-then C13 `radial_opaque_flag_sound` (with `a < 0` every point of the plane has an admissible root).
-`hra` ties the geometry `r` to the image (`radial.a` of the image is `r.a`; the flag rule reads only its sign);
-`hf`: `sqrt` is a square root on non-negative arguments; `hs`: the transform of the row's first pixel centre is
-representable (otherwise `radial_get_scanline` returns before writing anything). -/
-theorem radial_gradient_opaque_sound (i : Img) (hk : i.cr.kind = .radial) (h : i.flags.testBit 13 = true)
-    (hrv : i.props.repeat_ = 1 ∨ i.props.repeat_ = 2 ∨ i.props.repeat_ = 3) (hne : 0 < (gradStops i.cr).size)
-    (r : Radial) (hra : i.cr.radialA = r.a) (f : Rat → Rat) (hf : IsSqrt f)
-    (x y : Int) (w : Nat) (v unit : Pixman.Matrix.Vec)
-    (hs : setupVec (i.props.transform.map toMatrix) x y = some (v, unit)) :
-    ∃ ps, radialScanline r f (gradRepeat i.props.repeat_) (i.props.transform.map toMatrix) x y w = some ps ∧ ps.length = w ∧
-      (∀ c ∈ (rowWide (walkerInit (gradRepeat i.props.repeat_) (gradStops i.cr)) ps).2, c.a = 1) ∧
-      (∀ c ∈ (rowNarrow (walkerInit (gradRepeat i.props.repeat_) (gradStops i.cr)) ps).2, c / 16777216 = 255) := by
-  obtain ⟨ho, hrep, hrad, haff⟩ := flagged_stops i ⟨by rw [hk]; decide, by rw [hk]; decide⟩ h hrv
-  have ha : r.a < 0 := by
-    rw [← hra]
-    by_cases hge : i.cr.radialA ≥ 0
-    · exact absurd ⟨hk, hge⟩ hrad
-    · omega
-  obtain ⟨hu, hz⟩ := affine_setup i.props (haff hk) x y v unit hs
-  exact Pixman.Props.C13.radial_opaque_flag_sound r f hf _ hrep ha _ hne ho _ x y w v unit hs hu hz
-
-/-- a7be4c7 (finding C09-F3 repaired): a radial gradient under a PROJECTIVE transform is never flagged opaque — whatever
-its circles, stops and repeat mode — so the pixel `radial_get_scanline` clears where the homogeneous coordinate is 0
-(C13 `radial_wzero_cleared`) is composited with the requested operator (corpus/opacity/radial-projective-w-zero.txt) -/
-theorem projective_radial_never_flagged (i : Img) (hk : i.cr.kind = .radial) (t : ImageState.Transform)
-    (ht : i.props.transform = some t) (hproj : ¬ (t.m20 = 0 ∧ t.m21 = 0 ∧ t.m22 = pixman_fixed_1)) :
-    i.flags.testBit 13 = false := by
-  cases hb : i.flags.testBit 13 with
-  | false => rfl
-  | true =>
-    exfalso
-    have haff := (gradient_flag_sound_partial i ⟨by rw [hk]; decide, by rw [hk]; decide⟩ hb).2.2.2 hk
-    unfold affineFlag at haff
-    rw [ht] at haff
-    simp only [Bool.and_eq_true, beq_iff_eq] at haff
-    exact hproj ⟨haff.1.1, haff.1.2, haff.2⟩
+/-- RADIAL gradients (6d3452b): never flagged opaque — `Props.C09Flags.radial_never_flagged` — so nothing has to be
+shown about what they paint.  C13's coverage theorems (`radial_contained_paints_every_pixel`, `radial_opaque_flag_sound`,
+`radial_wzero_cleared`) remain true statements about the exact-arithmetic model; the library evaluates the root
+selection in `double`, and at a point where the admissible root has radius 0 (the common centre of concentric circles,
+corpus/gradient/radial-centre-rounding.txt) rounding loses it: the pixel stays transparent.  With the flag gone the
+requested operator is kept there. -/
+theorem radial_never_flagged (i : Img) (hk : i.cr.kind = .radial) : i.flags.testBit 13 = false :=
+  Pixman.Props.C09Flags.radial_never_flagged i hk
 
 /- non-vacuity: two opaque stops, PAD, a position between and one beyond -/
 example : (walkerEval (walkerReset (walkerInit .pad #[⟨0, ⟨65535, 0, 0, 65535⟩⟩, ⟨65536, ⟨0, 0, 65535, 65535⟩⟩]) 32768) 32768).a = 1 ∧
